@@ -454,7 +454,7 @@ def run(tier='quick', replay=None):
         for c_ in cases:
             c_['tp_src'] = tr.tp_src if tr is not None else {}
         log('run impl on %d cases' % len(cases))
-        wres = core.run_impl('impl_circuit.py', cases)
+        wres = core.run_impl('impl_circuit.py', cases, timeout=420)
         log('impl done')
         items = []
         labels = {}
